@@ -470,17 +470,31 @@ class Program:
         # Functions that are recognisably *renamings* of reviewed functions (same module / impl, same callers, the old
         # name gone) are given their reviewed names back, so that rule anchors, tables and known-finding keys - all of
         # which name functions - keep meaning the same code.  The mapping is reported in the evidence.
+        import json as _json
+        import re as _re
+
         try:
             from props import strops
 
-            ren = strops.renames(self)
+            tren = strops.adt_renames(self)
         except Exception:  # noqa: BLE001 - normalisation is best effort; without it anchors fail closed
+            tren = {}
+        if tren:
+            # renamed types first: their paths are prefixes of their methods' paths
+            text = _json.dumps(units)
+            for new, old in sorted(tren.items(), key=lambda kv: -len(kv[0])):
+                text = _re.sub(_re.escape(_json.dumps(new)[1:-1]) + r"(?![A-Za-z0-9_])", _json.dumps(old)[1:-1].replace("\\", "\\\\"), text)
+                nl, ol = new.rsplit("::", 1)[-1], old.rsplit("::", 1)[-1]
+                text = text.replace(f'"name": "{nl}"', f'"name": "{ol}"')
+            units = _json.loads(text)
+            self._init(units)
+        try:
+            ren = strops.renames(self)
+        except Exception:  # noqa: BLE001
             ren = {}
-        self.renamed = dict(ren)
+        self.renamed = dict(tren, **ren)
         if not ren:
             return
-        import json as _json
-        import re as _re
 
         text = _json.dumps(units)
         for new, old in sorted(ren.items(), key=lambda kv: -len(kv[0])):
@@ -492,7 +506,7 @@ class Program:
             text = _re.sub(r"::" + _re.escape(nl) + r"(?![A-Za-z0-9_])", "::" + ol, text)
             text = text.replace(f'"name": "{nl}"', f'"name": "{ol}"')
         self._init(_json.loads(text))
-        self.renamed = dict(ren)
+        self.renamed = dict(tren, **ren)
 
     def _init(self, units):
         self.units = units
